@@ -21,8 +21,10 @@ import (
 	"bytes"
 	"encoding/json"
 	"fmt"
+	"math/rand"
 	"os"
 	"path/filepath"
+	"regexp"
 	"sort"
 	"strings"
 	"sync"
@@ -36,8 +38,8 @@ import (
 func init() { core.Register("C16", Run) }
 
 const (
-	cpuLimitSec   = 10.0 // "terminates within seconds": a solo process may use this much CPU for one input of <= maxInputBytes
-	hangWallSec   = 120.0
+	cpuLimitSec   = 30.0 // "terminates within seconds", read generously: CPU seconds a solo single-threaded process may use for one input of <= maxInputBytes
+	hangWallSec   = 90.0 // no CPU progress for this long = deadlock
 	maxInputBytes = 40000
 	maxSeedTokens = 100
 )
@@ -60,12 +62,14 @@ type ctx struct {
 	reported       map[string]bool
 	nontrivSeq     int64
 	deadline       time.Time
-	queue          []batchIn
+	queue          map[string][]batchIn
+	dispatched     map[string]int
 	qcond          *sync.Cond
 	qclosed        bool
 	skippedBatches map[string]int64
 	deepSkipped    int64
 	submitted      int64
+	sampled        map[string]int
 	fastTmp        string
 }
 
@@ -84,9 +88,26 @@ func (c *ctx) submit(wg *sync.WaitGroup, in batchIn) {
 	wg.Add(1)
 	in.wg = wg
 	c.qcond.L.Lock()
-	c.queue = append(c.queue, in)
+	c.queue[in.Family] = append(c.queue[in.Family], in)
 	c.qcond.L.Unlock()
 	c.qcond.Signal()
+}
+
+// next batch: from the family that has had the fewest batches dispatched so far
+func (c *ctx) take() (batchIn, bool) {
+	best := ""
+	for f, q := range c.queue {
+		if len(q) > 0 && (best == "" || c.dispatched[f] < c.dispatched[best] || c.dispatched[f] == c.dispatched[best] && f < best) {
+			best = f
+		}
+	}
+	if best == "" {
+		return batchIn{}, false
+	}
+	in := c.queue[best][0]
+	c.queue[best] = c.queue[best][1:]
+	c.dispatched[best]++
+	return in, true
 }
 
 func (c *ctx) pool(n int) {
@@ -94,16 +115,15 @@ func (c *ctx) pool(n int) {
 		go func() {
 			for {
 				c.qcond.L.Lock()
-				for len(c.queue) == 0 && !c.qclosed {
+				in, ok := c.take()
+				for !ok && !c.qclosed {
 					c.qcond.Wait()
+					in, ok = c.take()
 				}
-				if len(c.queue) == 0 {
-					c.qcond.L.Unlock()
+				c.qcond.L.Unlock()
+				if !ok {
 					return
 				}
-				in := c.queue[0]
-				c.queue = c.queue[1:]
-				c.qcond.L.Unlock()
 				if time.Now().After(c.deadline) {
 					c.mu.Lock()
 					c.skippedBatches[in.Family]++
@@ -258,7 +278,9 @@ func (c *ctx) runBatchChild(in batchIn) {
 		os.WriteFile(filepath.Join(keep, in.ID+".json"), b, 0644)
 	}
 	t0 := time.Now()
-	defer func() { r.Logf("batch %s done in %.1fs (queue %d)", in.ID, time.Since(t0).Seconds(), len(c.queue)) }()
+	defer func() {
+		r.Logf("batch %s done in %.1fs (queue %d)", in.ID, time.Since(t0).Seconds(), len(c.queue["enum"])+len(c.queue["mut"]))
+	}()
 	defer os.RemoveAll(in.Dir)
 	defer os.Remove(in.Journal)
 	for attempt := 0; attempt < 6; attempt++ {
@@ -331,7 +353,13 @@ func (c *ctx) absorb(in batchIn, out *batchOut) {
 	r.AddEvaluations(out.Evals - out.Rejected)
 	r.AddTraces(out.Evals)
 	for _, s := range out.Samples {
-		r.Sample(s)
+		c.mu.Lock()
+		c.sampled[in.Family]++
+		ok := c.sampled[in.Family] <= 2
+		c.mu.Unlock()
+		if ok {
+			r.Sample(s)
+		}
 	}
 	for _, d := range out.Drift {
 		r.Drift("%s", d)
@@ -460,7 +488,8 @@ func (c *ctx) enumFamily(wg *sync.WaitGroup, hdr *enumHeader, stems []stem) {
 	r.Logf("Tokens: %d stems denote %d strings", len(stems), denoted)
 	// a seeded shuffle, so that every batch holds a mix of all plan entries (a run that is cut short by the
 	// time budget then still covers every language)
-	r.Rand.Shuffle(len(stems), func(i, j int) { stems[i], stems[j] = stems[j], stems[i] })
+	rnd := rand.New(rand.NewSource(r.Seed*17 + 3))
+	rnd.Shuffle(len(stems), func(i, j int) { stems[i], stems[j] = stems[j], stems[i] })
 	per := int64(r.Pick(12000, 60000))
 	var cur []stem
 	var curN int64
@@ -518,12 +547,15 @@ func (c *ctx) crossCheck(hdr *enumHeader, stems []stem) {
 	r.Set("enum_tail_expansion_cross_checked_strings", len(sets[1]))
 }
 
-func (c *ctx) mutFamily(wg *sync.WaitGroup, alphabets map[string][]string, kinds []nestKind) {
+// the simulation statistics of TLC ("The number of states generated: N") are not parsed by tlcrun
+var reSimStates = regexp.MustCompile(`The number of states generated: (\d+)`)
+
+func (c *ctx) mutTLC() ([]seed, []mutScript) {
 	r := c.r
 	seeds, perFile, err := extractSeeds(r.Repo)
 	if err != nil || len(seeds) < 100 {
 		r.Infra("seed extraction from %s: %d seeds, %v", r.Repo, len(seeds), err)
-		return
+		return nil, nil
 	}
 	lens := map[int]int{}
 	var kept []seed
@@ -543,25 +575,23 @@ func (c *ctx) mutFamily(wg *sync.WaitGroup, alphabets map[string][]string, kinds
 	r.Set("seeds", len(seeds))
 	r.Set("seeds_per_test_file", perFile)
 	r.Logf("mutation: %d seeds, %d distinct token lengths", len(seeds), len(lens))
-	// the exhaustive check of the machine for small constants
-	wg.Add(1)
-	go func() {
-		defer wg.Done()
-		c.tlc(tlcrun.Options{Module: "TokensMut", Config: smallCfg(r), Workers: 2, TimeoutSec: 900})
-	}()
 	cfgText := fmt.Sprintf("SPECIFICATION Spec\nCONSTANTS\n  SeedLens = {%s}\n  MaxDepth = 6\n  MaxTokens = 400\n  NTok = 40\n  NNest = %d\n  NestDepths = {1, 8, 64, 512}\n  NCorrupt = %d\n  Sample = TRUE\nINVARIANTS TypeOK WellFormed Export\nPROPERTIES ScriptGrows\nCHECK_DEADLOCK FALSE\n",
 		strings.Join(ls, ", "), 16, len(corruptions))
 	nJVM := r.Pick(1, 4)
-	walks := r.Pick(120, 1500)
+	walks := r.Pick(100, 1500)
 	var smu sync.Mutex
 	seen := map[string]bool{}
-	var scripts []mutScript
+	type keyed struct {
+		k string
+		s mutScript
+	}
+	var scripts []keyed
 	var swg sync.WaitGroup
 	for j := 0; j < nJVM; j++ {
 		swg.Add(1)
 		go func(j int) {
 			defer swg.Done()
-			c.tlc(tlcrun.Options{Module: "TokensMut", Config: "TokensMut.run.cfg", Files: map[string]string{"TokensMut.run.cfg": cfgText}, Workers: 1, TimeoutSec: 1200,
+			res := c.tlc(tlcrun.Options{Module: "TokensMut", Config: "TokensMut.run.cfg", Files: map[string]string{"TokensMut.run.cfg": cfgText}, Workers: 1, TimeoutSec: 1800,
 				Simulate: fmt.Sprintf("num=%d", walks), Depth: 7, Seed: r.Seed*1000 + int64(j) + 1, OnCase: func(raw []byte) {
 					var s mutScript
 					if json.Unmarshal(raw, &s) != nil || len(s.Script) == 0 {
@@ -570,25 +600,39 @@ func (c *ctx) mutFamily(wg *sync.WaitGroup, alphabets map[string][]string, kinds
 					smu.Lock()
 					if k := string(raw); !seen[k] {
 						seen[k] = true
-						scripts = append(scripts, s)
+						scripts = append(scripts, keyed{k, s})
 					}
 					smu.Unlock()
 				}})
+			if res != nil {
+				if m := reSimStates.FindStringSubmatch(res.Output); m != nil {
+					var n int64
+					fmt.Sscan(m[1], &n)
+					r.AddStates(n, n)
+					r.Inc("tlc_simulation_states_checked", n)
+				}
+			}
 		}(j)
 	}
 	swg.Wait()
 	if len(scripts) == 0 {
 		r.Infra("TokensMut: no scripts")
-		return
+		return nil, nil
 	}
-	sort.Slice(scripts, func(i, j int) bool {
-		a, _ := json.Marshal(scripts[i])
-		b, _ := json.Marshal(scripts[j])
-		return string(a) < string(b)
-	})
-	r.Set("mutation_scripts", len(scripts))
-	r.Logf("TokensMut: %d distinct scripts", len(scripts))
-	r.Rand.Shuffle(len(scripts), func(i, j int) { scripts[i], scripts[j] = scripts[j], scripts[i] })
+	sort.Slice(scripts, func(i, j int) bool { return scripts[i].k < scripts[j].k })
+	rnd := rand.New(rand.NewSource(r.Seed*31 + 7))
+	rnd.Shuffle(len(scripts), func(i, j int) { scripts[i], scripts[j] = scripts[j], scripts[i] })
+	out := make([]mutScript, len(scripts))
+	for i, k := range scripts {
+		out[i] = k.s
+	}
+	r.Set("mutation_scripts", len(out))
+	r.Logf("TokensMut: %d distinct scripts", len(out))
+	return seeds, out
+}
+
+func (c *ctx) mutDispatch(wg *sync.WaitGroup, seeds []seed, scripts []mutScript, alphabets map[string][]string, kinds []nestKind) {
+	r := c.r
 	per := r.Pick(4000, 20000)
 	for lo, bi := 0, 0; lo < len(scripts); lo, bi = lo+per, bi+1 {
 		hi := min(lo+per, len(scripts))
@@ -693,8 +737,9 @@ func (c *ctx) nestFamily(wg *sync.WaitGroup) []nestKind {
 // ---------------------------------------------------------------------------
 
 func Run(r *core.Run) {
-	c := &ctx{r: r, childSem: make(chan struct{}, 2), soloSem: make(chan struct{}, 3), tlcSem: make(chan struct{}, 3),
-		byLang: map[string]int64{}, byLoader: map[string]int64{}, byOp: map[string]int64{}, reported: map[string]bool{}, skippedBatches: map[string]int64{}}
+	c := &ctx{r: r, childSem: make(chan struct{}, 2), soloSem: make(chan struct{}, 2), tlcSem: make(chan struct{}, 3),
+		byLang: map[string]int64{}, byLoader: map[string]int64{}, byOp: map[string]int64{}, reported: map[string]bool{}, skippedBatches: map[string]int64{},
+		queue: map[string][]batchIn{}, dispatched: map[string]int{}, sampled: map[string]int{}}
 	c.qcond = sync.NewCond(&sync.Mutex{})
 	c.fastTmp = r.Scratch
 	if d, err := os.MkdirTemp("/dev/shm", "verif-C16-"); err == nil {
@@ -711,25 +756,34 @@ func Run(r *core.Run) {
 	r.Assume("inputs inside a batch child are only screened (diagnostic texts, a 20 s wall-clock monitor, the journal of inputs in progress); every verdict about time or a crash comes from re-running the single (input, loader, flag set) alone in a fresh process")
 	r.Assume("no coverage feedback: enumeration and scripted mutation only (DESIGN.md section 6)")
 
-	c.pool(r.Pick(6, 8))
+	c.pool(r.Pick(5, 6))
 	var wg sync.WaitGroup
 	wg.Add(1)
 	go func() { defer wg.Done(); faults(c) }()
 	var hdr *enumHeader
 	var stems []stem
+	var seeds []seed
+	var scripts []mutScript
 	var pre sync.WaitGroup
-	pre.Add(1)
+	pre.Add(2)
+	go func() { defer pre.Done(); seeds, scripts = c.mutTLC() }()
 	go func() { defer pre.Done(); hdr, stems = c.enumTLC() }()
 	kinds := c.nestFamily(&wg)
 	pre.Wait()
 	if hdr != nil {
 		c.crossCheck(hdr, stems)
+		if kinds != nil && scripts != nil {
+			c.mutDispatch(&wg, seeds, scripts, hdr.Alphabets, kinds)
+		}
 		wg.Add(1)
 		go func() { defer wg.Done(); c.enumFamily(&wg, hdr, stems) }()
-		if kinds != nil {
-			c.mutFamily(&wg, hdr.Alphabets, kinds)
-		}
 	}
+	// the exhaustive check of the mutation machine for small constants
+	wg.Add(1)
+	go func() {
+		defer wg.Done()
+		c.tlc(tlcrun.Options{Module: "TokensMut", Config: smallCfg(r), Workers: 2, TimeoutSec: 1800})
+	}()
 	wg.Wait()
 	c.qcond.L.Lock()
 	c.qclosed = true
